@@ -353,6 +353,20 @@ func checkC06(ctx *Ctx) *Result {
 		r.check(strips, "R6.3", "lexer strips exactly `[` and `]`, which the printer restores", p.Pos(fh.Pos()), "fastParseHost no longer strips the brackets of an IPv6 literal the way the printer assumes", 1)
 	}
 	treeRules(ctx, r)
+	// Config() lists entries in normal-form order (sorted, `*` first), not in the
+	// order the user wrote them: a round trip preserves behaviour only if
+	// validation does not depend on order, multiplicity or spelling (C15's rules)
+	r.rule("R6.5", "validation is insensitive to the re-ordering and normalisation that rendering applies (fold rules R15.1–R15.3 of the list validators)", 60)
+	if vf := ctx.ValidationFacts(); len(vf.Problems) > 0 {
+		r.undecided("R6.5", "validation-path", strings.Join(vf.Problems, "; "))
+	} else {
+		val := ctx.Validation()
+		for _, f := range sortedKeys(val.Lists) {
+			monotoneFlags(ctx, r, "R6.5", val.Lists[f])
+			carriedReads(ctx, r, "R6.5", val.Lists[f])
+		}
+		reportMismatches(r, "R6.5", val, vf, func(m mismatch) bool { return true }, "per-element behaviour differs from the documented, order-free table")
+	}
 	if te := p.Func(pkgOrigins, "(*Tree).Elems"); te != nil {
 		x3 := p.NewExec(p.RadixPolicy)
 		ps := x3.Summarize(te)
